@@ -3,30 +3,28 @@
    refreshRing, handleNodeEvent ...), Spec.v (lookups_consistent, knows, reported_ids, offered,
    last_status), Proofs1-6.v (ring_inv, report_ok, history_ok, ... and the lemmas used below).
 
-   Side conditions and why they are there (each excluded region has a machine-checked witness in
-   Refuted.v and an entry in tools/props/C16.findings.json):
-     remove_ok / report_ok.ro_old, ro_new   no host is removed while another ring host has its
-                                            node-to-node address          (index_shadow_refuted, refresh_shadow_refuted)
-     update_ok / add_ok                     addOrUpdate does not move a known host's node-to-node address
-                                                                          (stale_key_refuted, events_crash_refuted)
-     report_ok.ro_nodup                     a report does not carry one host id twice   (refresh_duplicate_refuted)
-     report_ok.ro_valid / add_ok            reported hosts have a usable connect address (what hostInfoFromMap
-                                            guarantees for every host it returns). *)
+   The four defects found on the unchanged tree (removal of a host whose address another host shares;
+   addOrUpdate moving a known host's address without re-indexing; a host id reported twice; a row without
+   a usable address) are repaired in /repo and the model follows the repaired code: the theorems no longer
+   exclude these regions.  The one remaining side condition is that hosts handed to the ring have a
+   usable connect address (hosts_valid / report_ok), which hostInfoFromMap guarantees for every host it
+   returns; at the level of rows (theorem 14) there is no side condition at all.  Refuted.v keeps the
+   pre-fix ring operations with their witnesses as regression facts. *)
 From Coq Require Import Permutation.
 From GocqlV Require Import Lib.Base C16.ZMap C16.Model C16.Spec
   C16.Proofs1 C16.Proofs2 C16.Proofs3 C16.Proofs4 C16.Proofs5 C16.Proofs6.
 
-(* 1. Index consistency over every history of ring operations (any length, any hosts): look-ups by id
-   and by address and the ordered list agree. *)
+(* 1. Index consistency over every history of ring operations (any length, any hosts, hosts sharing
+   addresses, updates that move addresses): look-ups by id and by address and the ordered list agree. *)
 Theorem C16_ring_index_inv : forall ops,
-  ops_ok empty_ring ops -> lookups_consistent (ring_run empty_ring ops).
+  lookups_consistent (ring_run empty_ring ops).
 Proof. exact ring_history_consistent. Qed.
 Print Assumptions C16_ring_index_inv.
 
 (* 2. Every session history (initial hosts, control-connection set-ups, refreshes with arbitrary reports,
    failed refreshes, event batches, connection notifications, in any order and number) runs without a
-   panic and ends in a state whose look-ups are consistent, where no two nodes share an address and
-   connection pools exist only for known nodes. *)
+   panic and ends in a state whose look-ups are consistent and where connection pools exist only for known
+   nodes. *)
 Theorem C16_history_inv : forall c ls,
   history_ok c empty_sess ls ->
   exists s, run c empty_sess ls = Some s /\ sess_inv s /\ lookups_consistent (s_ring s).
@@ -34,13 +32,13 @@ Proof. exact history_invariant. Qed.
 Print Assumptions C16_history_inv.
 
 (* 3. One refresh: it succeeds, and afterwards the session knows exactly the accepted hosts of the
-   report; a new node or a node whose address changed is held as the reported record (replaced), an
-   unchanged node as its old record updated; new/replaced nodes have a pool and were announced to the
-   policy, vanished nodes have no pool and were removed from the policy, nothing else lost its pool
-   (refresh_post, Proofs3.v). *)
+   report (a host id reported twice counts once, by its first report); a new node or a node whose address
+   changed is held as the reported record (replaced), an unchanged node as its old record updated;
+   new/replaced nodes have a pool and were announced to the policy, vanished nodes have no pool and were
+   removed from the policy, nothing else lost its pool (refresh_post, Proofs3.v). *)
 Theorem C16_refresh_exact : forall c s report,
-  ring_inv (s_ring s) -> addr_inj (s_ring s) -> (forall id, In id (s_pool s) -> knows (s_ring s) id) ->
-  report_ok c (s_ring s) report ->
+  ring_inv (s_ring s) -> (forall id, In id (s_pool s) -> knows (s_ring s) id) ->
+  report_ok c report ->
   exists s', refresh c s report = (s', ROk) /\ refresh_post c s report s'.
 Proof. exact refresh_correct. Qed.
 Print Assumptions C16_refresh_exact.
@@ -100,7 +98,7 @@ Theorem C16_down_until_connected : forall c s l s' id,
   sess_inv s -> label_ok c s l -> step c s l = Some s' -> knows (s_ring s) id -> marked_down (s_ring s) id ->
   l <> LConnected id ->
   (marked_down (s_ring s') id /\ offered s' id = false)
-  \/ exists report hr, l = LRefresh report /\ In hr (accepted c report) /\ h_id hr = id
+  \/ exists report hr, l = LRefresh report /\ In hr (effective c report) /\ h_id hr = id
                        /\ fresh_record (s_ring s) hr /\ get_host (s_ring s') id = Some hr.
 Proof.
   intros c s l s' id H1 H2 H3 H4 H5 H6. destruct (step_keeps_down c s l s' id H1 H2 H3 H4 H5 H6) as [H|H]; [left | right; exact H].
@@ -138,10 +136,10 @@ Print Assumptions C16_events_any_order.
    remaining old hosts without repetition) it removes exactly those hosts from ring and pools, tells the
    policy, and keeps the invariants. *)
 Theorem C16_vanished_any_order : forall (l : zmap hostinfo) s,
-  ring_inv (s_ring s) -> addr_inj (s_ring s) -> NoDup (mkeys l) ->
+  ring_inv (s_ring s) -> NoDup (mkeys l) ->
   (forall id e, In (id, e) l -> mget id (hosts (s_ring s)) = Some e) ->
   let s' := remove_all s l in
-  ring_inv (s_ring s') /\ addr_inj (s_ring s')
+  ring_inv (s_ring s')
   /\ (forall id, mget id (hosts (s_ring s')) = if zmem id (mkeys l) then None else mget id (hosts (s_ring s)))
   /\ (forall id, In id (s_pool s') <-> In id (s_pool s) /\ ~ In id (mkeys l))
   /\ (forall a, In a (s_log s') <-> In a (s_log s) \/ exists id, In id (mkeys l) /\ a = PRemove id)
@@ -163,6 +161,18 @@ Proof.
 Qed.
 Print Assumptions C16_report_is_local_plus_valid_peers.
 
+(* 14. A refresh from the rows the control node returned, without any side condition on the rows: either
+   some row has no usable address, then the refresh returns an error and nothing changes (no panic), or it
+   succeeds with the post-condition of 3 for local :: valid peers. *)
+Theorem C16_refresh_rows : forall c s local rows,
+  ring_inv (s_ring s) -> (forall id, In id (s_pool s) -> knows (s_ring s) id) ->
+  match get_hosts local rows with
+  | None => refresh_rows c s local rows = (s, RErrReport)
+  | Some report => exists s', refresh_rows c s local rows = (s', ROk) /\ refresh_post c s report s'
+  end.
+Proof. exact refresh_rows_correct. Qed.
+Print Assumptions C16_refresh_rows.
+
 (* ------------------------------------------------------------------------------------------------
    Non-vacuity: the side conditions hold on non-trivial histories (checked by computation through the
    decidable versions of Proofs6.v), and the conclusions are about non-empty rings. *)
@@ -172,28 +182,30 @@ Definition ex_local (id a : Z) : hostinfo :=
   mkHost id None (Some a) (Some a) (Some a) None (Some a) 9042 1 1 (Some [id]) true.
 Definition ex_cfg : cfg := mkCfg (fun h => negb (h_id h =? 5)) false false.
 
-(* a ring history with adds, an update, removals and the re-use of an address after its owner left *)
+(* a ring history with adds, hosts sharing an address, an update that moves an address, removals *)
 Example C16_nonvacuous_ring :
-  let ops := [OAddIfMissing (ex_host 1 1); OAddIfMissing (ex_host 2 2); OAddOrUpdate (ex_host 1 3);
-              ORemove 1; OAddIfMissing (ex_host 3 1); ORemove 7; OAddOrUpdate (ex_host 2 2)] in
-  ops_ok empty_ring ops /\ mkeys (hosts (ring_run empty_ring ops)) = [2; 3].
-Proof. split; [apply ops_okb_sound; vm_compute; reflexivity | vm_compute; reflexivity]. Qed.
+  let ops := [OAddIfMissing (ex_host 1 1); OAddIfMissing (ex_host 2 1); OAddOrUpdate (ex_local 1 3);
+              ORemove 2; OAddIfMissing (ex_host 3 1); ORemove 7; OAddOrUpdate (ex_host 2 2)] in
+  mkeys (hosts (ring_run empty_ring ops)) = [1; 3; 2] /\ mkeys (ip2id (ring_run empty_ring ops)) = [3; 1; 2].
+Proof. split; vm_compute; reflexivity. Qed.
 
-(* a session history: start-up, a refresh in which node 3 joins, node 2 changes address, node 4 leaves
-   and node 5 is rejected by the filter, then events (one for an unknown address), a failed refresh and a
-   connection notification *)
+(* a session history: start-up, a refresh in which node 3 joins on the address node 4 leaves, node 2 changes
+   address and is reported twice, node 5 is rejected by the filter, then events (one for an unknown address),
+   a failed refresh and a connection notification *)
 Example C16_nonvacuous_history :
   let pre := [LControl (ex_local 1 1); LInit [ex_local 1 1; ex_host 2 2; ex_host 4 4]] in
-  let report := [ex_local 1 1; ex_host 2 6; ex_host 3 3; ex_host 5 5] in
-  let tail := [LEvents [ETopo 0 9; EStatus 2 3; EStatus 1 9; ETopo 0 9; EStatus 1 3; EStatus 2 6]; LRefreshFail;
+  let report := [ex_local 1 1; ex_host 2 6; ex_host 3 4; ex_host 5 5; ex_host 2 7] in
+  let tail := [LEvents [ETopo 0 9; EStatus 2 4; EStatus 1 9; ETopo 0 9; EStatus 1 4; EStatus 2 6]; LRefreshFail;
                LEvents [EStatus 1 6]; LConnected 2] in
   history_ok ex_cfg empty_sess (pre ++ LRefresh report :: tail) /\ forallb quiet tail = true
-  /\ reported_ids ex_cfg report = [1; 2; 3]
+  /\ reported_ids ex_cfg report = [1; 2; 3; 2] /\ map h_id (effective ex_cfg report) = [1; 2; 3]
   /\ exists s, run ex_cfg empty_sess (pre ++ LRefresh report :: tail) = Some s
                /\ mkeys (hosts (s_ring s)) = [1; 2; 3] /\ s_pool s = [1; 3; 2] /\ s_refresh s = 0
+               /\ fst (get_by_ip (s_ring s) 4) = Some (ex_host 3 4)
                /\ offered s 2 = true /\ offered s 3 = true.
 Proof.
   split; [apply history_okb_sound; vm_compute; reflexivity|]. split; [reflexivity|]. split; [reflexivity|].
+  split; [reflexivity|].
   eexists. split; [vm_compute; reflexivity|]. repeat split; vm_compute; reflexivity.
 Qed.
 
